@@ -143,7 +143,7 @@ _KS = dict(encodes=["blowfish::Blowfish::new"], replay="structural", unwind=130,
                     "trace generation for them took 290 of 335 s",
            stubs=["Blowfish::encrypt_pair -> recorder returning fresh nondeterministic pairs (521 calls)"])
 H("C11", "blowfish", "c11_key_schedule_8", tier="quick", timeout=600, bounds="all 2^64 8-byte keys", **_KS)
-H("C11", "blowfish", "c11_key_schedule_16", tier="thorough", timeout=1800, bounds="all 16-byte keys", **_KS)
+H("C11", "blowfish", "c11_key_schedule_16", tier="quick", timeout=900, bounds="all 16-byte keys", **_KS)
 H("C11", "blowfish", "c11_key_schedule_56", tier="thorough", timeout=1800, bounds="all 56-byte keys", **_KS)
 H("C11", "blowfish", "c11_published_vector_zero_key", tier="thorough", timeout=1800, unwind=130,
   bounds="one concrete published vector (key 0^8, block 0^8) through new+encrypt; decided by constant propagation",
@@ -202,7 +202,7 @@ for hh, t in ((1, "thorough"), (3, "quick"), (4, "thorough"), (5, "quick"), (8, 
     H("C13", "bcn", "c13_copy_block_h%d" % hh, tier=t, unwind=6, timeout=600,
       bounds="image height %d x widths {1,2,3,4,5,7,8,9}, every block position (enumerated), every pixel (symbolic), all pixel contents" % hh,
       encodes=["bcn::color::copy_block_buffer"])
-for (w, h, t) in ((1, 1, "quick"), (4, 4, "quick"), (5, 5, "quick"), (6, 4, "quick"), (3, 7, "thorough"), (8, 8, "thorough"), (9, 2, "thorough")):
+for (w, h, t) in ((1, 1, "quick"), (4, 4, "quick"), (5, 5, "quick"), (6, 4, "quick"), (3, 7, "quick"), (8, 8, "thorough"), (9, 2, "thorough")):
     H("C13", "bcn", "c13_image_bc1_%dx%d" % (w, h), tier=t, timeout=900, unwind=18, bounds="BC1 image %dx%d (concrete size), all data bytes, every pixel" % (w, h),
       encodes=["bcn::decode_bc1 (block_decoder! macro)", "bcn::color::copy_block_buffer", "bcn::bc1::decode_bc1_block"])
 for f in ("bc3", "bc5"):
@@ -213,7 +213,7 @@ H("C13", "bcn", "c13_image_short_data_rejected", unwind=18, bounds="data one byt
 H("C13", "bcn", "c13_pipeline_witness", expect="witness-fail", bounds="assert(false) twin")
 H("C13", "tex", "c13_texture_decode_reorders_bgra", unwind=18, timeout=600, bounds="BC1 4x4 through Texture::decode: all data, every pixel", encodes=["tex::Texture::decode"])
 for n in ("2x2x1", "1x2x2", "3x1x1"):
-    H("C13", "tex", "c13_from_existing_bgra_" + n, tier="quick" if n == "2x2x1" else "thorough", unwind=20, timeout=900,
+    H("C13", "tex", "c13_from_existing_bgra_" + n, tier="quick" if n in ("2x2x1", "1x2x2") else "thorough", unwind=20, timeout=900,
       bounds="B8G8R8A8 %s: all attribute words, all payload bytes, every pixel" % n, encodes=["tex::Texture::from_existing", "tex::TexHeader (binrw)"],
       cbmc_args=FS256)
 for n, t in (("bc1_4x4", "thorough"), ("bc1_5x3", "thorough"), ("bc3_4x4", "thorough"), ("bc5_4x4", "thorough"), ("bc1_4x4x2", "thorough")):
@@ -323,7 +323,7 @@ H("C01", "sqpack_index", "c01i_pipeline_witness", expect="witness-fail", bounds=
 _RS = ["std::hash::RandomState::new -> fixed keys (needed to construct the HashMap field; the map is not used)"]
 H("C01", "gamedata", "c01_repository_selection_bg", unwind=12, timeout=600, bounds="paths bg/<3 symbolic bytes [a-z][a-z][0-9]>/<1 symbolic letter> over repositories ffxiv, ex1, ex2",
   encodes=["gamedata::GameData::parse_repository_category", "repository::string_to_category"], stubs=_RS)
-H("C01", "gamedata", "c01_repository_selection_shapes", unwind=20, timeout=300, bounds="6 concrete path shapes (deep path, no repository token, repository token last, unknown category, no directory)",
+H("C01", "gamedata", "c01_repository_selection_shapes", unwind=28, timeout=300, bounds="8 concrete path shapes (deep path, no repository token, repository token last, names that only begin like an expansion, unknown category, no directory)",
   encodes=["gamedata::GameData::parse_repository_category"], stubs=_RS + ["core::slice::memchr::memchr_aligned -> naive forward scan"])
 H("C01", "gamedata", "c01g_pipeline_witness", expect="witness-fail", bounds="assert(false) twin", stubs=_RS)
 
@@ -512,3 +512,8 @@ H("C04", "sqpack_mod", "c04_patch_block_roundtrip_seeded_len", unwind=260, timeo
 H("C13", "bcn", "c13_image_bc1_seeded_size", unwind=18, timeout=900, bounds="BC1 image of a size chosen by VERIF_SEED (1..9 x 1..9), all data bytes, every pixel", encodes=["bcn::decode_bc1"])
 H("C05", "exd", "c05_cell_u32_seeded_offset", timeout=300, unwind=18, bounds="u32 column at an offset chosen by VERIF_SEED (0..8), all 16 row bytes", encodes=_RR)
 H("C05", "exd", "c05_cell_packed5_seeded_offset", timeout=300, unwind=18, bounds="packed bool 5 column at an offset chosen by VERIF_SEED (0..8), all 16 row bytes", encodes=_RR)
+
+H("C05", "exd", "c05_language_ids_and_codes", unwind=10, timeout=300, bounds="all 8 language ids: parsed value and file-name code", encodes=["common::Language (binrw repr)", "common::get_language_code"])
+
+H("C02", "sqpack_data", "c02_texture_file_two_mips", unwind=24, timeout=900, bounds="texture entry: 16 header bytes, mip 0 = 2 raw blocks (padded 128 / 256), mip 1 = 2 raw blocks; all header and content bytes symbolic",
+  encodes=["sqpack::data::SqPackData::read_texture_file", "sqpack::read_data_block"], stubs=_MF, cbmc_args=FS1K)
